@@ -142,6 +142,9 @@ class Instance:
         self.outcome: Optional[str] = None  # returned | raised:<X> | cancelled | running
         self.t_end: Optional[float] = None
         self.receive_callable: Any = None
+        self.recv_seq: List[int] = []  # world sequence number of each received message
+        self.send_seq: List[list] = []  # [seq at call, seq at return] per entry of .sends
+        self.seq_start = 0
         self.parked_gate: Optional[str] = None
         self.pc = 0
 
@@ -183,11 +186,15 @@ class RecordingLogger:
 
     async def access(self, request: dict, response: Any, request_time: float) -> None:
         w = self.world
+        if w.finished:
+            return
         status = None if response is None else response.get("status")
         w.access.append((w.now(), id(request), request.get("type"), request.get("path"), status, request))
 
     def _rec(self, level: str, message: str, args: tuple) -> None:
         w = self.world
+        if w.finished:
+            return
         import sys
 
         exc = sys.exc_info()[1] if level == "exception" else None
@@ -282,13 +289,16 @@ class ScriptApp:
         if w.finished:
             return m
         inst.received.append(m)
+        inst.recv_seq.append(w.next_seq())
         inst.log.append((w.now(), "recv", m))
         return m
 
     async def _send(self, inst: Instance, send: Callable, msg: dict) -> Optional[str]:
         w = self.world
         rec = [w.now(), None, msg, "pending"]
+        seqs = [w.next_seq(), None]  # logical-clock stamps of the call and of its return
         inst.sends.append(rec)
+        inst.send_seq.append(seqs)
         try:
             await send(dict(msg))
         except w.cancelled_exc:
@@ -306,6 +316,7 @@ class ScriptApp:
             return None
         rec[1] = w.now()
         rec[3] = "ok"
+        seqs[1] = w.next_seq()
         inst.log.append((w.now(), "sent", msg.get("type")))
         return None
 
@@ -397,12 +408,18 @@ class WorldBase:
         self.events_log: List[tuple] = []
         self.finished = False  # set at final quiescence: nothing is recorded during teardown
 
+    def next_seq(self) -> int:
+        """A logical clock: orders observations that happen at the same virtual instant."""
+        self._seq = getattr(self, "_seq", 0) + 1
+        return self._seq
+
     # --- to be provided by engines
     def now(self) -> float:
         raise NotImplementedError
 
     def on_instance(self, inst: Instance) -> None:
         # how many bytes the server had written on each connection when this instance was created
+        inst.seq_start = self.next_seq()
         inst.out_len = {k: len(rec.out) for k, rec in self.conns.items()}
         inst.seq = len(self.driver.fired)
 
